@@ -735,7 +735,7 @@ fn gen_c13(rng: &mut Rng, n: usize, emit: &mut dyn FnMut(Vec<i128>) -> bool) {
         let leaps = random_leaps(rng, true);
         let fixed_rule = if rng.next() % 2 == 0 && !trans.is_empty() { Some(offs[trans.last().unwrap().1 as usize]) } else if rng.next() % 4 == 0 { Some(offs[0]) } else { None };
         let mut z = ZoneSpec { leaps, trans, offs, fixed_rule, rule_name: 0 };
-        match round % 13 {
+        match round % 14 {
             1 => z.offs.clear(),
             2 if !z.trans.is_empty() => { let k = rng.range(0, z.trans.len() as i128 - 1) as usize; z.trans[k].1 = z.offs.len() as i128 + rng.pick(&[0i128, 1]); }
             3 if z.trans.len() > 1 => { let k = rng.range(1, z.trans.len() as i128 - 1) as usize; z.trans[k].0 = z.trans[k - 1].0 - rng.pick(&[0i128, 1]); }
@@ -745,6 +745,7 @@ fn gen_c13(rng: &mut Rng, n: usize, emit: &mut dyn FnMut(Vec<i128>) -> bool) {
             7 if z.leaps.len() > 1 => { let k = rng.range(1, z.leaps.len() as i128 - 1) as usize; z.leaps[k].1 = z.leaps[k - 1].1 + rng.pick(&[0i128, 2, -2]); }
             8 if z.fixed_rule.is_some() => z.fixed_rule = Some(z.fixed_rule.unwrap() + 1),
             11 if z.fixed_rule.is_some() => z.rule_name = rng.range(1, 4),
+            12 if z.leaps.len() > 1 => { let k = rng.range(1, z.leaps.len() as i128 - 1) as usize; z.leaps[k].0 = rng.pick(&[i64::MIN as i128, i64::MIN as i128 + 5, -1]); }
             9 if !z.leaps.is_empty() => z.leaps[0] = (i64::MAX as i128, 1),
             10 if z.leaps.len() > 1 => { z.leaps[0].1 = i32::MIN as i128 + 1; z.leaps[1].1 = i32::MAX as i128; }
             _ => {}
@@ -940,6 +941,62 @@ fn eval_c17(x: &[i128]) -> Result<(), Mismatch> {
             }
             (a, r) => return Err((format!("same outcome as the allocating search ({})", if a.is_ok() { "Ok" } else { "Err" }), (if r.is_ok() { "Ok" } else { "Err" }).to_string())),
         }
+    }
+    Ok(())
+}
+
+
+/// C13, trailing rule of the alternate (DST) kind with a leap table: the zone is accepted exactly when the rule
+/// prescribes, at the UTC instant of the last transition, the last transition's type
+fn gen_c13_alt(rng: &mut Rng, n: usize, emit: &mut dyn FnMut(Vec<i128>) -> bool) {
+    for round in 0..(n / 60 + 4) {
+        let y = rng.pick(&[1973i128, 1990, 2021, 2030]);
+        let leaps: Vec<(i128, i128)> = match round % 4 {
+            0 => vec![(78796800, 1)],
+            1 => vec![(78796800, 1), (94694401, 2), (126230402, 3)],
+            2 => vec![(1000, -1)],
+            _ => vec![],
+        };
+        for k in -4i128..=4 {
+            for which in 0..4i128 {
+                let mut v = vec![y, which, k, leaps.len() as i128];
+                for l in &leaps {
+                    v.extend([l.0, l.1]);
+                }
+                if !emit(v) {
+                    return;
+                }
+            }
+        }
+    }
+}
+
+fn eval_c13_alt(x: &[i128]) -> Result<(), Mismatch> {
+    let (y, which, k) = (x[0], x[1], x[2]);
+    let nl = x[3] as usize;
+    let leaps: Vec<(i128, i128)> = (0..nl).map(|i| (x[4 + 2 * i], x[5 + 2 * i])).collect();
+    let a = o::Alt { std_off: 3600, dst_off: 7200, start: o::Day::M(3, 5, 0), start_time: 7200, end: o::Day::M(10, 5, 0), end_time: 10800 };
+    // last transition near this year's DST start (which = 0, 1) or end (2, 3), going to STD (even) or DST (odd)
+    let near = if which < 2 { a.s(y) } else { a.e(y) };
+    let t_last = o::f(&leaps, near) + k;
+    let to_dst = which % 2 == 1;
+    let b = Built {
+        leaps: leaps.iter().map(|l| LeapSecond::new(l.0 as i64, l.1 as i32)).collect(),
+        trans: vec![Transition::new((t_last - 10_000_000) as i64, 0), Transition::new(t_last as i64, if to_dst { 1 } else { 0 })],
+        types: vec![LocalTimeType::new(3600, false, Some(b"STD")).unwrap(), LocalTimeType::new(7200, true, Some(b"DST")).unwrap()],
+        rule: Some(TransitionRule::Alternate(real_alt(&a).unwrap().map_err(|e| ("rule accepted".to_string(), format!("{e:?}")))?)),
+    };
+    let u = o::g(&leaps, t_last);
+    let exp = if a.in_dst(u) == to_dst { "Ok" } else { "InconsistentExtraRule" };
+    let show = |r: Result<(), TzError>| match r {
+        Ok(()) => "Ok".to_string(),
+        Err(TzError::TimeZone(e)) => format!("{e:?}"),
+        Err(e) => format!("{e:?}"),
+    };
+    let act = show(TimeZoneRef::new(&b.trans, &b.types, &b.leaps, &b.rule).map(|_| ()));
+    let act_owned = show(TimeZone::new(b.trans.clone(), b.types.clone(), b.leaps.clone(), b.rule).map(|_| ()));
+    if act != exp || act_owned != exp {
+        return Err((format!("{exp} (rule prescribes is_dst={} at UTC {u}, last transition goes to is_dst={to_dst})", a.in_dst(u)), format!("borrowed={act} owned={act_owned}")));
     }
     Ok(())
 }
@@ -1155,6 +1212,190 @@ fn eval_c04_full(x: &[i128]) -> Result<(), Mismatch> {
     eval_c04_inner(x, true)
 }
 
+
+// ---------------------------------------------------------------------------------------------- C05 / C06 (bounded, public API)
+
+/// type (offset) in force at UTC instant u for a table zone with optional fixed rule, per the oracle; None = no type
+fn oracle_type_at(z: &ZoneSpec, u: i128) -> Option<i128> {
+    let t = o::f(&z.leaps, u);
+    if z.trans.is_empty() {
+        return Some(z.fixed_rule.unwrap_or(z.offs[0]));
+    }
+    if t >= z.trans.last().unwrap().0 {
+        return z.fixed_rule;
+    }
+    match z.trans.iter().rev().find(|tr| tr.0 <= t) {
+        Some(tr) => Some(z.offs[tr.1 as usize]),
+        None => Some(z.offs[0]),
+    }
+}
+
+/// expected result of the search for local second count `local` in a table zone: (Normal instants with offset, gaps (instant, a, b))
+fn oracle_search_table(z: &ZoneSpec, local: i128) -> (Vec<(i128, i128)>, Vec<(i128, i128, i128)>) {
+    let mut offs: Vec<i128> = z.offs.clone();
+    if let Some(r) = z.fixed_rule {
+        offs.push(r);
+    }
+    offs.sort();
+    offs.dedup();
+    let mut normals = Vec::new();
+    for &off in &offs {
+        let u = local - off;
+        if oracle_type_at(z, u) == Some(off) {
+            normals.push((u, off));
+        }
+    }
+    normals.sort();
+    let mut gaps = Vec::new();
+    for (i, tr) in z.trans.iter().enumerate() {
+        if i + 1 == z.trans.len() && z.fixed_rule.is_none() {
+            continue;
+        }
+        let a = if i == 0 { z.offs[0] } else { z.offs[z.trans[i - 1].1 as usize] };
+        let b = z.offs[tr.1 as usize];
+        let u = o::g(&z.leaps, tr.0);
+        if u + a <= local && local < u + b {
+            gaps.push((u, a, b));
+        }
+    }
+    (normals, gaps)
+}
+
+fn eval_c05_table(x: &[i128]) -> Result<(), Mismatch> {
+    let local = x[0];
+    let (z, _) = decode_zone(&x[1..]);
+    if oracle_zone_wf(&z).is_err() || z.trans.is_empty() {
+        return Ok(());
+    }
+    // zones in which a negative leap second deletes a UTC value next to a transition are left to C12
+    let b = build(&z);
+    let tz = match TimeZoneRef::new(&b.trans, &b.types, &b.leaps, &b.rule) {
+        Ok(tz) => tz,
+        Err(_) => return Ok(()),
+    };
+    let f = o::fields(local);
+    let list = match DateTime::find(f.0 as i32, f.1 as u8, f.2 as u8, f.3 as u8, f.4 as u8, f.5 as u8, 0, tz) {
+        Ok(l) => l,
+        Err(_) => return Ok(()),
+    };
+    let (exp_n, exp_g) = oracle_search_table(&z, local);
+    let v = list.clone().into_inner();
+    let act_n: Vec<(i128, i128)> = v.iter().filter_map(|k| match k { FoundDateTimeKind::Normal(d) => Some((d.unix_time() as i128, d.local_time_type().ut_offset() as i128)), _ => None }).collect();
+    let act_g: Vec<(i128, i128, i128)> = v.iter().filter_map(|k| match k { FoundDateTimeKind::Skipped { before_transition, after_transition } => Some((before_transition.unix_time() as i128, before_transition.local_time_type().ut_offset() as i128, after_transition.local_time_type().ut_offset() as i128)), _ => None }).collect();
+    if act_n != exp_n {
+        return Err((format!("valid results {exp_n:?}"), format!("{act_n:?}")));
+    }
+    let mut eg = exp_g.clone();
+    eg.sort();
+    let mut ag = act_g.clone();
+    ag.sort();
+    if ag != eg {
+        return Err((format!("gaps {eg:?}"), format!("{ag:?}")));
+    }
+    // ascending order of instants over all entries
+    let inst: Vec<i128> = v.iter().map(|k| match k { FoundDateTimeKind::Normal(d) => d.unix_time() as i128, FoundDateTimeKind::Skipped { before_transition, .. } => before_transition.unix_time() as i128 }).collect();
+    if inst.windows(2).any(|w| w[0] > w[1]) {
+        return Err(("results in ascending order of instant".into(), format!("{inst:?}")));
+    }
+    let uniq = list.unique().map(|d| d.unix_time() as i128);
+    let exp_uniq = if exp_n.len() == 1 && exp_g.is_empty() { Some(exp_n[0].0) } else { None };
+    if uniq != exp_uniq {
+        return Err((format!("unique = {exp_uniq:?}"), format!("{uniq:?}")));
+    }
+    Ok(())
+}
+
+fn gen_c05_rule(rng: &mut Rng, n: usize, emit: &mut dyn FnMut(Vec<i128>) -> bool) {
+    let mut round = 0;
+    let mut produced = 0;
+    while produced < n && round < n * 30 {
+        round += 1;
+        let a = random_alt(rng, round);
+        if !a.ranges_ok() || !a.order_stable() {
+            continue;
+        }
+        let y = rng.pick(&[1999i128, 2000, 2017, 2023, 2024, 2100]);
+        for yy in [y, y + 1] {
+            for v in [a.s(yy), a.e(yy)] {
+                for off in [a.std_off, a.dst_off] {
+                    for dl in [-1i128, 0, 1, 1800] {
+                        let mut e = enc_alt(&a);
+                        e.push(v + off + dl);
+                        produced += 1;
+                        if !emit(e) {
+                            return;
+                        }
+                    }
+                }
+            }
+        }
+    }
+}
+
+/// rule-only zone: valid results are the candidates L - std, L - dst whose clock shows L; gaps at forward switches
+fn eval_c05_rule(x: &[i128]) -> Result<(), Mismatch> {
+    let a = dec_alt(x);
+    let local = x[12];
+    let alt = match real_alt(&a) {
+        Some(Ok(alt)) => alt,
+        _ => return Ok(()),
+    };
+    if !a.order_stable() {
+        return Ok(());
+    }
+    let types = [*alt.std(), *alt.dst()];
+    let rule = Some(TransitionRule::Alternate(alt));
+    let tz = match TimeZoneRef::new(&[], &types, &[], &rule) {
+        Ok(tz) => tz,
+        Err(_) => return Ok(()),
+    };
+    let f = o::fields(local);
+    let cy = f.0;
+    // the evaluator's known-defect class (F2) is left out, as in C04
+    for yy in cy - 2..=cy + 2 {
+        if !a.start_first() && a.s(yy) == a.e(yy) {
+            return Ok(());
+        }
+    }
+    let list = match DateTime::find(f.0 as i32, f.1 as u8, f.2 as u8, f.3 as u8, f.4 as u8, f.5 as u8, 0, tz) {
+        Ok(l) => l.into_inner(),
+        Err(_) => return Ok(()),
+    };
+    let mut exp_n: Vec<(i128, bool)> = Vec::new();
+    for (off, dst) in [(a.std_off, false), (a.dst_off, true)] {
+        let u = local - off;
+        if a.in_dst(u) == dst {
+            exp_n.push((u, dst));
+        }
+    }
+    exp_n.sort();
+    exp_n.dedup();
+    let mut act_n: Vec<(i128, bool)> = list.iter().filter_map(|k| match k { FoundDateTimeKind::Normal(d) => Some((d.unix_time() as i128, d.local_time_type().is_dst())), _ => None }).collect();
+    let ordered = act_n.windows(2).all(|w| w[0].0 <= w[1].0);
+    act_n.sort();
+    if act_n != exp_n || !ordered {
+        return Err((format!("valid results {exp_n:?} in ascending order"), format!("{act_n:?} ordered={ordered}")));
+    }
+    // gaps: a switch at instant T from offset p to a larger offset q with T + p <= local < T + q, only where the type really changes
+    let mut exp_g: Vec<i128> = Vec::new();
+    for yy in cy - 2..=cy + 2 {
+        for (t, p, q) in [(a.s(yy), a.std_off, a.dst_off), (a.e(yy), a.dst_off, a.std_off)] {
+            let changes = a.in_dst(t - 1) != a.in_dst(t);
+            if changes && t + p <= local && local < t + q {
+                exp_g.push(t);
+            }
+        }
+    }
+    exp_g.sort();
+    exp_g.dedup();
+    let mut act_g: Vec<i128> = list.iter().filter_map(|k| match k { FoundDateTimeKind::Skipped { before_transition, .. } => Some(before_transition.unix_time() as i128), _ => None }).collect();
+    act_g.sort();
+    if act_g != exp_g {
+        return Err((format!("gaps at {exp_g:?}"), format!("{act_g:?}")));
+    }
+    Ok(())
+}
+
 fn gen_none(_: &mut Rng, _: usize, _: &mut dyn FnMut(Vec<i128>) -> bool) {}
 
 // ----------------------------------------------------------------------------------------------
@@ -1166,10 +1407,15 @@ const PROBES: &[Probe] = &[
     Probe { name: "C03/lookup", property: "C03", gen: gen_c03, eval: eval_c03 },
     Probe { name: "C04/rule", property: "C04", gen: gen_c04, eval: eval_c04 },
     Probe { name: "C04/rule_full", property: "-", gen: gen_none, eval: eval_c04_full },
+    Probe { name: "C05/table_search", property: "C05", gen: gen_c14_search, eval: eval_c05_table },
+    Probe { name: "C05/rule_search", property: "C05", gen: gen_c05_rule, eval: eval_c05_rule },
+    Probe { name: "C06/table_search", property: "C06", gen: gen_c14_search, eval: eval_c05_table },
+    Probe { name: "C06/rule_search", property: "C06", gen: gen_c05_rule, eval: eval_c05_rule },
     Probe { name: "C11/new", property: "C11", gen: gen_c11, eval: eval_c11 },
     Probe { name: "C12/transition_instant", property: "C12", gen: gen_c12, eval: eval_c12 },
     Probe { name: "C12/junction_roundtrip", property: "C12", gen: gen_c12_junction, eval: eval_c12_junction },
     Probe { name: "C13/new", property: "C13", gen: gen_c13, eval: eval_c13 },
+    Probe { name: "C13/alt_rule_consistency", property: "C13", gen: gen_c13_alt, eval: eval_c13_alt },
     Probe { name: "C14/new", property: "C14", gen: gen_c14_new, eval: eval_c14_new },
     Probe { name: "C14/from_timespec_and_local", property: "C14", gen: gen_c14_ts, eval: eval_c14_ts },
     Probe { name: "C14/search_entries", property: "C14", gen: gen_c14_search, eval: eval_c14_search },
@@ -1202,11 +1448,17 @@ fn main() {
             let budget: usize = args.get(4).and_then(|s| s.parse().ok()).unwrap_or(2000);
             let mut evals = 0usize;
             let mut distinct = std::collections::HashSet::new();
+            let mut samples: Vec<String> = Vec::new();
             for p in PROBES.iter().filter(|p| p.property == pid.as_str() || p.name == pid.as_str()) {
                 let mut rng = Rng(seed.wrapping_mul(0x9E3779B97F4A7C15) ^ 0xD1B54A32D192ED03 | 1);
                 let mut hit: Option<(Vec<i128>, Mismatch)> = None;
+                let mut taken = 0;
                 (p.gen)(&mut rng, budget, &mut |inp: Vec<i128>| {
                     evals += 1;
+                    if taken < 2 && evals % 97 == 5 {
+                        taken += 1;
+                        samples.push(format!("{{\"probe\":{},\"inputs\":[{}]}}", json_str(p.name), inp.iter().map(|v| v.to_string()).collect::<Vec<_>>().join(",")));
+                    }
                     distinct.insert(inp.clone());
                     let inp2 = inp.clone();
                     let res = std::panic::catch_unwind(move || (p.eval)(&inp2));
@@ -1228,7 +1480,7 @@ fn main() {
                     return;
                 }
             }
-            println!("{{\"found\":false,\"evaluations\":{},\"distinct\":{}}}", evals, distinct.len());
+            println!("{{\"found\":false,\"evaluations\":{},\"distinct\":{},\"samples\":[{}]}}", evals, distinct.len(), samples.join(","));
         }
         Some("run") => {
             let name = &args[2];
